@@ -90,6 +90,8 @@ def check(run):
     okd, dlog = common.build_driver("tr")
     found = None
     cases = [tr.rand_case(rng) for _ in range(n)]
+    # one mixture larger than any shipped one (17-20 species): the assembly must not depend on the species count
+    cases.append(tr.rand_case(rng, rng.randint(17, 20)))
     if not okd:
         broken.append({"stage": "extraction", "detail": dlog[-600:]})
     else:
@@ -99,6 +101,11 @@ def check(run):
         for c, (mq, mqh) in zip(cases, mods):
             iq, iqh = tr.impl_matrices(c)
             for a, b, nm in ((iq, mq, "q"), (iqh, mqh, "qhat")):
+                if a.shape != b.shape:
+                    dis += 1
+                    if not any(x.get("stage") == "correspondence" for x in broken):
+                        broken.append({"stage": "correspondence", "detail": {"matrix": nm, "what": f"the implementation assembles a {a.shape[0]}x{a.shape[1]} matrix for {c['nb']} species, the model {b.shape[0]}x{b.shape[1]}"}})
+                    continue
                 sc = np.maximum(np.abs(a), np.max(np.abs(a), axis=1, keepdims=True) * 1e-3)
                 e = float(np.max(np.abs(a - b) / np.where(sc > 0, sc, 1)))
                 if e > TOL_M:
@@ -117,6 +124,11 @@ def check(run):
         dis += len(fdis)
         if fdis and not any(b.get("stage") == "correspondence" for b in broken):
             broken.append({"stage": "correspondence", "detail": fdis[0]})
+        if fdis and found is None:
+            f0 = fdis[0]
+            found = {"kind": "input", "what": f"transport output of a {f0['nb']}-species mixture differs from the model's final formula on the implementation's own matrices: "
+                                              f"{f0['what']} (D[{f0['D_entry'][0]},{f0['D_entry'][1]}] implementation {f0['impl_D']!r}, model {f0['model_D']!r}, relative error {f0['error']:.3e})",
+                     "case": dict(f0["case"], nb=f0["nb"], Q="prescribed random symmetric collision integrals (seeded)")}
         run.cov["correspondence_disagreements"] = dis
     # V: the identities on the implementation
     for c in cases:
